@@ -643,6 +643,17 @@ impl VLog {
 				let file_path = entry.path();
 				let file_size = entry.metadata()?.len();
 
+				// A crash while a new file was being created can leave fewer bytes
+				// than a file header. Such a file cannot hold a value, so nothing
+				// can point into it: drop it rather than refusing to open.
+				if file_size > 0 && file_size < VLogFileHeader::SIZE as u64 {
+					log::warn!(
+						"Removing VLog file {file_name_str} with a torn header ({file_size} bytes)"
+					);
+					std::fs::remove_file(&file_path)?;
+					continue;
+				}
+
 				// Track the file with maximum ID for active writer setup
 				if max_file_id.is_none_or(|current_max| file_id >= current_max) {
 					max_file_id = Some(file_id);
